@@ -1,7 +1,17 @@
-"""C03 deductive tier: only the shape of the Armijo acceptance test and the measurement-grouping obligations (every
-measurement enters the objective, C04) are within reach; attaining the optimum is decided by the bounded tier."""
+"""C03 deductive tier: the shape of the Armijo acceptance test, and the objective the solvers descend on in its one-cell instance
+(loss formula, gradient = derivative of the loss, pv/contracts/lossgrad.py); attaining the optimum is decided by the bounded tier."""
 from . import infer
+from .. import deductive
+from ..contracts import lossgrad as LG
 
 
 def run(tier):
-    return infer.c03()
+    reps = infer.c03()
+    for rel, q, c, tag in LG.ITEMS:
+        if tag == 'C04':
+            reps.append(deductive.verify_function(rel, q, c, hooks=LG.OneCellHooks(), module_env=LG.ENV, prefix='%s::%s[one-cell instance]' % (rel, q)))
+    return reps
+
+
+def replay(prop, ob):
+    return LG.replay(prop, ob)
